@@ -583,3 +583,60 @@ Example C09_param_change_nonvacuous :
   inv_b (x_env xs3) (x_st xs3) = true /\
   xstep xs3 (SetParams [Some (5, 4, [1])] 0) = Err /\ claim_end (x_env xs4) = 1000000000000.
 Proof. cbv zeta. repeat split; vm_compute; reflexivity. Qed.
+
+(** * The correspondence checker evaluates the plain machine
+
+    [check_history] / [mismatches] (Model/Incentive.v), which the harness evaluates on every
+    recorded history, re-tabulate the model state after every operation ([retab]) for
+    evaluation speed.  Proofs/RetabIncentive.v proves that this changes nothing: on the
+    in-range indexes (users < nusers, pools < npools, reward denoms < ndenoms) the re-tabulated
+    state has the components of the plain one, every operation reads in-range indexes only, and
+    so the checker returns exactly what the same checker WITHOUT any re-tabulation returns
+    ([check_history_plain]: xstep only; a successful multi-operation step is [xrun]).  What
+    retab drops is the value of the components at out-of-range indexes. *)
+From Kava Require Proofs.RetabCommon Proofs.RetabIncentive.
+
+Theorem C09_retab_agrees_in_range : forall e s, RetabIncentive.steq e (retab e s) s.
+Proof. exact RetabIncentive.retab_steq. Qed.
+Print Assumptions C09_retab_agrees_in_range.
+
+(* every operation maps states that agree in range to states that agree in range, with the
+   same result class (Ok / Err / Panic) *)
+Theorem C09_step_respects_in_range_agreement :
+  forall e s s' o, RetabIncentive.steq e s s' ->
+  RetabCommon.orel (RetabIncentive.steq e) (step e s o) (step e s' o).
+Proof. exact RetabIncentive.step_steq. Qed.
+Print Assumptions C09_step_respects_in_range_agreement.
+
+Theorem C09_observables_respect_in_range_agreement :
+  forall e s s', RetabIncentive.steq e s s' -> project e s = project e s' /\ inv_b e s = inv_b e s'.
+Proof. intros e s s' Q. split; [apply RetabIncentive.project_steq|apply RetabIncentive.inv_b_steq]; exact Q. Qed.
+Print Assumptions C09_observables_respect_in_range_agreement.
+
+Theorem C09_checker_is_plain_run :
+  forall h, check_history h = RetabIncentive.check_history_plain h.
+Proof. exact RetabIncentive.check_history_retab_eq_plain. Qed.
+Print Assumptions C09_checker_is_plain_run.
+
+Theorem C09_mismatches_is_plain_run :
+  forall hs, mismatches hs = RetabIncentive.mismatches_plain hs.
+Proof. exact RetabIncentive.mismatches_retab_eq_plain. Qed.
+Print Assumptions C09_mismatches_is_plain_run.
+
+(* a successful multi-operation step of the plain checker is the plain run of its operations *)
+Theorem C09_plain_multi_step_is_xrun :
+  forall os xs xs1 u, RetabIncentive.xstep_list_plain xs os = Ok xs1 u -> xs1 = xrun xs os.
+Proof. exact RetabIncentive.xstep_list_plain_xrun. Qed.
+Print Assumptions C09_plain_multi_step_is_xrun.
+
+(* non-vacuity: the plain checker is not trivially "no mismatch" -- a history whose recorded
+   observation contradicts the plain run is reported at its step, and both checkers say so *)
+Example C09_plain_checker_nonvacuous :
+  let e := mk_env 1 1 1 [Some (mk_period 0 1000000000000 [1000])] 1000000000000 false in
+  let h_ok := mkHist e 0 [1000000] [0] [0] [0; 0; 0; 0; 0; 0; 0; 0; 0; 0; 1000000]
+                [([O (Block 100000000000)], mkObs ROk [(0%nat, 100000000000); (1%nat, 100000000000)])] in
+  let h_bad := mkHist e 0 [1000000] [0] [0] [0; 0; 0; 0; 0; 0; 0; 0; 0; 0; 1000000]
+                [([O (Block 100000000000)], mkObs ROk [(0%nat, 100000000000); (1%nat, 99)])] in
+  RetabIncentive.check_history_plain h_ok = None /\ check_history h_ok = None /\
+  RetabIncentive.check_history_plain h_bad = Some 0%nat /\ check_history h_bad = Some 0%nat.
+Proof. cbv zeta. repeat split; vm_compute; reflexivity. Qed.
